@@ -28,24 +28,29 @@ DESIGN_REF = "DESIGN.md §5.2"
 TECHNIQUE = (
     "Lean 4 proofs in real inner-product spaces (sub-gradient certificate => unique minimiser, firm non-expansiveness; "
     "radial reduction + Cauchy-Schwarz; product spaces for separable/complex/block; direct global-minimiser proofs for the "
-    "non-convex functionals) about an executable model of every closed-form prox; differential correspondence of the "
-    "model with the real scico code incl. exact threshold ties; certificate oracle on the implementation"
+    "non-convex functionals; Cardano/trigonometric root of the depressed cubic as coded; nuclear-norm prox on matrices by "
+    "Bessel + Cauchy-Schwarz) about an executable model of every closed-form prox; differential correspondence of the "
+    "model with the real scico code incl. exact threshold ties, constructor guards, rescaling histories; certificate oracle "
+    "on the implementation"
 )
 LEVEL_TEXT = (
     "Lean theorems: for every functional/loss with a closed-form prox (L1 real/complex, squared L2, L2, L2,1 over any "
-    "grouping, Huber separable/non-separable, non-negative and L2-ball indicators, (squared) distance to a convex set given its "
-    "projector, zero functional, weighted squared-L2 loss with diagonal operator, nuclear norm on singular values) the modelled "
-    "prox carries the sub-gradient certificate for ALL v, lam>0, parameters and sizes, hence is the unique minimiser, firmly "
-    "non-expansive and in the domain; global minimality is proved directly for the non-convex SquaredL2AbsLoss, "
-    "SquaredL2SquaredAbsLoss (root as a relation) and L1-L2 (every beta>=0, all four branches and v=0); for L0Norm the "
-    "theorem characterises exactly where the coded threshold is optimal and the negation is proved with a witness."
+    "grouping incl. the index-level grouping of l2_axis on N-d arrays, Huber separable/non-separable, non-negative and L2-ball "
+    "indicators, (squared) distance to a convex set given its projector, zero functional, weighted squared-L2 loss with diagonal "
+    "operator, generic Loss by translation, nuclear norm ON MATRICES given the SVD contract) the modelled prox carries the "
+    "sub-gradient certificate for ALL v, lam>0, parameters and sizes, hence is the unique minimiser, firmly non-expansive and in "
+    "the domain; global minimality is proved directly for the non-convex SquaredL2AbsLoss, SquaredL2SquaredAbsLoss (real and "
+    "complex; the root of the depressed cubic is PROVED from the code's closed form outside its 1e-7 band) and L1-L2 (every "
+    "beta>=0, all four branches and v=0); for L0Norm the theorem characterises exactly where the coded threshold is optimal "
+    "and the negation is proved with a witness; the has_prox guards of the losses are decision-logic theorems."
 )
 LEVEL_NOTE = (
     "Trusted: Lean kernel + Mathlib (axioms propext, Classical.choice, Quot.sound); real-number idealisation of IEEE arithmetic; "
-    "the correspondence (differential test, sampled) between model and code; SVD and the von Neumann trace inequality "
-    "(nuclear norm is proved on singular values only); complex phase exp(i angle v) modelled as v/|v|; the cubic root of "
-    "SquaredL2SquaredAbsLoss enters as the relation r>=0, r^3+pr+q=0 which is checked numerically on the code's root. "
-    "Recorded defects: L0Norm threshold (known); float32 default weights in the phase-retrieval losses (known, precision only)."
+    "the correspondence (differential test, sampled) between model and code; existence of a thin SVD and that jnp.linalg.svd "
+    "returns one (hypothesis of C02_nuclear, checked numerically on every real case; complex matrices only on singular values); "
+    "contracts angle=Complex.arg, exp/cos/sin, x**(1/3) and the polar form of the principal complex power (class HasTrig); "
+    "inside the band 0<|p|<=1e-7 _dep_cubic_root is approximate by design (residual proved non-zero, effect O(1e-14) on the objective). "
+    "Recorded defects: L0Norm threshold (known l0-threshold); L1MinusL2Norm.prox rejects BlockArray (known l1l2-blockarray)."
 )
 PROP_MODULES = ["Scico.Props.C02"]
 EXTRA_TARGETS = ["Drv.Prox"]
@@ -59,22 +64,27 @@ FILES = [
     "scico/numpy/util.py",
 ]
 RULE = (
-    "per family (18 classes/configurations, incl. the generic Loss wrapping a functional, and every loss after c*L, L/c, set_scale sequences): structured cases from scico's constructors (parameter grids delta, beta, radius, "
-    "l2_axis, projector, scale, W, A in {None, Identity, Diagonal}; plain 1-3-d / block layouts; real / complex; float64 and "
-    "float32) with dyadic v, lam, plus a boundary stream (magnitudes exactly on / one grid step beside each threshold, v=0, "
-    "||v||=r, inside / on / outside the set, zero weights, ties of the arg-max). A case is non-trivial when the prox output is "
-    "neither 0 nor v (a threshold is active) or it comes from the boundary stream; distinct by (family, parameters, layout, v, lam)."
+    "per family (18 classes/configurations, incl. the generic Loss wrapping a functional, and every loss after c*L, L/c, set_scale "
+    "sequences, the ORIGINAL loss object re-evaluated after the history): structured cases from scico's constructors (parameter grids "
+    "delta, beta, radius, l2_axis incl. tuples/negative axes on 1-4-d arrays, projector (also through the args tuple), scale, W, "
+    "A in {None, Identity, Diagonal}; plain 1-4-d / block layouts; real / complex; float64 and float32) with dyadic v, lam, plus a "
+    "boundary stream (magnitudes exactly on / one grid step beside each threshold, v=0, ||v||=r, inside / on / outside the set, zero "
+    "weights, ties of the arg-max); exhaustive guard stream (W kind x A kind x sign of y for the three specific losses) and "
+    "argument-rejection stream (NuclearNorm ndim, L21Norm block/axis, PoissonLoss). A case is non-trivial when the prox output is "
+    "neither 0 nor v (a threshold is active) or it comes from the boundary / guard / reject stream; distinct by (family, parameters, "
+    "layout, v, lam)."
 )
 ASSUMPTIONS = [
     "IEEE rounding is not modelled: model and code are compared within 1e-9 (float64) / 1e-4 (float32) relative tolerance, exactly in decision on dyadic ties",
-    "SVD (jnp.linalg.svd) and von Neumann's trace inequality: NuclearNorm.prox is modelled on the singular values",
-    "complex phase exp(1j*angle(v)) is modelled as v/|v| (1 at v=0)",
-    "the root returned by loss._dep_cubic_root enters the model as a value; the relation r>=0, r^3+p*r+q=0, (r=0 -> alpha*y<=1) is checked numerically on every case",
+    "SVD: every real matrix has a thin SVD and jnp.linalg.svd returns one (orthonormal U columns / Vh rows, s >= 0, U diag(s) Vh = v) - hypothesis of C02_nuclear, checked numerically on the factors of every real nuclear case; no trace inequality is assumed; complex matrices are tied on the singular values only",
+    "contracts of the transcendental primitives used by _dep_cubic_root/_cbrt and the complex L1 phase: angle = Complex.arg, cos/sin/exp, x**(1/3) on x >= 0, principal complex power in polar form (class HasTrig; libm at Float)",
+    "_dep_cubic_root inside its band 0 < |p| <= 1e-7 replaces w^3 by -q: approximate by design, excluded from C02_cubic_root (residual proved non-zero); model and code agree there too",
     "projectors handed to SetDistance/SquaredSetDistance are metric projections onto closed convex sets (hypothesis IsProjAt of the theorem)",
 ]
 
 KNOWN_L0 = "l0-threshold"
 KNOWN_W32 = "loss-default-weight-float32"
+KNOWN_L1L2_BLOCK = "l1l2-blockarray"
 
 
 def _key(case):
@@ -303,6 +313,8 @@ def correspond(ctx, model):
         else:
             check_case(ctx, model, case, run_oracle=True)
     # 2. per family: structured + boundary
+    pg.L1L2_BLOCKS = l1l2_accepts_blocks()  # block layouts of l1l2 are generated as soon as the code accepts them
+    ctx.count("l1l2-block-input:" + ("exercised" if pg.L1L2_BLOCKS else "rejected-by-the-code(known l1l2-blockarray)"))
     ns = ctx.n(22, 230)
     nb = ctx.n(14, 110)
     every = ctx.n(6, 10)
@@ -316,8 +328,7 @@ def correspond(ctx, model):
                 return
     # 3. which constructions advertise a prox / are rejected (exhaustive over the small configuration space)
     guard_cases(ctx, model)
-    # 4. block input of L1MinusL2Norm is rejected by snp.max (C13 finding; recorded in the distribution only)
-    ctx.count("not-exercised:l1l2-block-input(C13)")
+    reject_cases(ctx, model)
 
 
 GUARD_W = ["none", "diag_nonneg", "diag_negative", "not_diagonal"]
@@ -382,6 +393,60 @@ def guard_cases(ctx, model):
                                  note="has_prox / constructor rejection differs from the model")
 
 
+def reject_cases(ctx, model):
+    """argument checks of NuclearNorm (2-d only) and L21Norm (block input needs l2_axis=None) against the model
+    (`nuclearAccepts`, `l21Accepts`), and PoissonLoss (advertises no prox)"""
+    import scico.numpy as snp
+    from scico import functional as F
+    from scico import loss
+
+    def observe(fn):
+        with warnings.catch_warnings():
+            warnings.simplefilter("ignore")
+            try:
+                fn()
+            except ValueError:
+                return "value"
+            except NotImplementedError:
+                return "notimpl"
+        return "ok"
+
+    def expect(**kw):
+        try:
+            model.call("accepts", **kw)
+        except common.ModelErr as e:
+            return e.kind
+        return "ok"
+
+    for shape in [(3,), (2, 3), (1, 1), (2, 1, 3), (1, 2, 2, 1)]:
+        x = snp.array(np.arange(1.0, 1.0 + int(np.prod(shape))).reshape(shape))
+        for what, fn in (("prox", lambda x=x: F.NuclearNorm().prox(x, 0.5)), ("call", lambda x=x: F.NuclearNorm()(x))):
+            obs, exp = observe(fn), expect(kind="nuclear", ndim=len(shape))
+            ctx.count(f"reject:nuclear:{what}:ndim={len(shape)}:{exp}")
+            ctx.case({"fam": "reject", "cls": "nuclear", "what": what, "shape": list(shape)}, f"reject-nuclear-{what}-{shape}")
+            if obs != exp:
+                ctx.disagree("prox.reject.nuclear", {"shape": list(shape), "what": what}, obs, exp)
+    xb = snp.blockarray([np.array([1.0, -2.0]), np.array([[0.5, 3.0]])])
+    xa = snp.array(np.array([[1.0, -2.0], [0.5, 3.0]]))
+    for block, x in ((True, xb), (False, xa)):
+        for ax in (None, 0, 1, (0, 1)):
+            if block is False and ax is None:
+                pass
+            for what, fn in (("prox", lambda x=x, ax=ax: F.L21Norm(l2_axis=ax).prox(x, 0.5)), ("call", lambda x=x, ax=ax: F.L21Norm(l2_axis=ax)(x))):
+                obs, exp = observe(fn), expect(kind="l21", block=block, axis_none=ax is None)
+                ctx.count(f"reject:l21:{what}:block={block}:axis={ax}:{exp}")
+                ctx.case({"fam": "reject", "cls": "l21", "what": what, "block": block, "axis": str(ax)}, f"reject-l21-{what}-{block}-{ax}")
+                if obs != exp:
+                    ctx.disagree("prox.reject.l21", {"block": block, "axis": str(ax), "what": what}, obs, exp)
+    # PoissonLoss has no closed-form prox: the flag must be off and prox must refuse
+    L = loss.PoissonLoss(y=snp.array(np.array([1.0, 2.0])))
+    obs = observe(lambda: L.prox(snp.array(np.array([1.0, 2.0])), 1.0))
+    ctx.count(f"reject:poisson:has_prox={bool(L.has_prox)}:{obs}")
+    ctx.case({"fam": "reject", "cls": "poisson"}, "reject-poisson")
+    if L.has_prox or obs != "notimpl":
+        ctx.disagree("prox.reject.poisson", {"has_prox": bool(L.has_prox)}, obs, "notimpl")
+
+
 def findings(ctx, model):
     """replay the witnesses of known_findings.txt on the real code"""
     common.setup_scico()
@@ -400,6 +465,34 @@ def findings(ctx, model):
     if common.b2fs(r["out"]) != [float(p[0])]:
         ctx.disagree("prox.l0.witness", {"v": [1.2], "lam": 1.0}, p.tolist(), common.b2fs(r["out"]))
     _w32_witness(ctx, model)
+    _l1l2_block_witness(ctx, model)
+
+
+def l1l2_accepts_blocks():
+    """does L1MinusL2Norm.prox evaluate a BlockArray argument on the tree under test? (known finding l1l2-blockarray)"""
+    c = json.loads((common.CORPUS_DIR / PROP / "l1l2_blockarray.json").read_text())["case"]
+    with warnings.catch_warnings():
+        warnings.simplefilter("ignore")
+        try:
+            pc.Impl(c).prox_flat(pc.flat_value(c, "v"))
+        except TypeError:
+            return False
+    return True
+
+
+def _l1l2_block_witness(ctx, model):
+    """l1l2-blockarray: still a TypeError -> recorded finding; repaired -> the witness is an ordinary correspondence case"""
+    c = json.loads((common.CORPUS_DIR / PROP / "l1l2_blockarray.json").read_text())["case"]
+    if not l1l2_accepts_blocks():
+        ctx.known_finding(KNOWN_L1L2_BLOCK, True, "L1MinusL2Norm.prox(BlockArray) raises TypeError")
+        if not ctx.is_known(KNOWN_L1L2_BLOCK):
+            ctx.violation({"kind": "failing-input", "case": c, "failing": {"reason": "L1MinusL2Norm.prox raises TypeError on a BlockArray"}},
+                          True, "L1MinusL2Norm.prox rejects block arrays")
+        return
+    ctx.known_finding(KNOWN_L1L2_BLOCK, False, "L1MinusL2Norm.prox accepts block arrays")
+    case = dict(c)
+    case["stream"] = "corpus"
+    check_case(ctx, model, case, run_oracle=True)
 
 
 def _w32_witness(ctx, model):
